@@ -985,3 +985,37 @@ def rule_reg_count(res, ast):
               f"create tells the bytecode generator that {n} temporaries are registers, the JIT's table has {len(regs)}: "
               + ("Reg::tmp(k).unwrap() panics when %k is live across a runtime call" if n is not None and n > len(regs) else "the bytecode's spill/liveness assumptions do not match the JIT's registers"))
     res.check(len(regs) <= 16, "REG-COUNT", f"{CODEGEN}|Reg::tmp|bitmap", w, "more than 16 register temporaries do not fit the u16 live bitmap")
+    # can_use_as_scratch(live, k): true exactly for a register temporary whose live bit is clear.  For k beyond the table the selector would go on
+    # to `Reg::tmp(k).unwrap()` (a panic while compiling); for a live register it would clobber a value that is still needed.
+    try:
+        cs = ast.fn(CODEGEN, "can_use_as_scratch")["node"]
+        import receval
+        from rusteval import Env as _Env, ReturnEx as _Ret, Unanalysable as _Un, Reached as _Re
+        ps_ = [p_["pat"]["name"] for p_ in cs["sig"]["inputs"] if p_["t"] == "Arg" and p_["pat"]["t"] == "PIdent"]
+        bad_ = []
+        for k in range(0, 20):
+            for live in ((0, 0xFFFF) if k >= 16 else (0, 1 << k, 0xFFFF ^ (1 << k))):
+                try:
+                    if len(ps_) != 2:
+                        raise _Un("can_use_as_scratch(&self, live, tmp): unexpected parameters")
+                    it = receval.RecInterp(ast, CODEGEN, receval.Rec())
+                    env_ = _Env()
+                    env_.bind(ps_[0], live)
+                    env_.bind(ps_[1], k)
+                    try:
+                        v_ = it.exec_block(cs["body"], env_)
+                    except _Ret as r_:
+                        v_ = r_.value
+                except (_Un, _Re, KeyError, TypeError, IndexError) as u_:
+                    bad_.append(f"cannot be analysed (fail closed): {u_}")
+                    break
+                want = k < len(regs) and not (live >> k) & 1
+                if v_ is not want:
+                    bad_.append(f"temporary {k} with live bitmap {live:#06x}: answers {v_!r}, must be {want} "
+                                + ("(a stack temporary has no register: Reg::tmp(k).unwrap() panics while compiling)" if k >= len(regs) else "(the register's live bit decides)"))
+            if bad_ and bad_[-1].startswith("cannot"):
+                break
+        res.check(not bad_, "REG-COUNT", f"{CODEGEN}|can_use_as_scratch|bound", where(CODEGEN, cs, "can_use_as_scratch"),
+                  "can_use_as_scratch must agree with the register table: " + "; ".join(bad_[:2]))
+    except Missing as m:
+        res.missing("REG-COUNT", m)
